@@ -555,11 +555,16 @@ class Mineral:
         If `postfix` is not `None`, the data is appended to the NPZ file
         in fields ending with "`_postfix`".
 
-        Raises a `ValueError` if the data shapes are not compatible.
+        Raises a `ValueError` if the data shapes are not compatible
+        or if `filename` does not end with ".npz".
 
         See also: `numpy.savez`, `Mineral.load`, `Mineral.from_file`.
 
         """
+        if not str(filename).endswith(".npz"):
+            raise ValueError(
+                f"Must only save to numpy NPZ format. Cannot save to {filename}."
+            )
         if len(self.fractions) != len(self.orientations):
             raise ValueError(
                 "Length of stored results must match."
